@@ -14,5 +14,5 @@ for d in sorted(glob.glob(os.path.join(V, "seeded", "C*_*"))):
     for r in rb[:3]:
         r = r.replace("|", "/")
         tiers.append("`%s`" % (r[:110]))
-    kind = ", ".join(oc.get("tiers", [])) or "?"
+    kind = ", ".join(oc.get("tiers", [])) or "tier not recorded"
     print("| %s | %s | %s | %s%s |" % (os.path.basename(d), s, ("yes (%s)" % kind) if oc.get("caught") else "**no**", "; ".join(tiers), " …" if len(rb) > 3 else ""))
